@@ -176,6 +176,14 @@ def lifecycle(ctx):
 
 
 # ---------------------------------------------------------------------------------- plugin loader constants
+IS_ACTIVE_TEMPLATE = '''
+attr = getattr(self.config, f'plugin_{self.name}'.upper(), 'True')
+if attr is None:
+    return True
+return str2bool(attr)
+'''
+
+
 def plugins_consts(ctx):
     tree = ctx.modules[PLUG]
     consts = pylean.module_constants(tree)
@@ -192,34 +200,86 @@ def plugins_consts(ctx):
     if sort.args or set(kw) - {'key', 'reverse'} or 'key' not in kw:
         raise Untranslatable('unexpected arguments of loaded.sort: ' + ast.unparse(sort))
     key = ast.unparse(kw['key'])
+    # two shapes: the key calls order() itself (a failing order() fails the sort = the whole load), or order() is
+    # read per plugin inside the `try` of the loop, checked to be a number, and the sort uses the stored value
     m = re.fullmatch(r'lambda (\w+): \1\.order\(\) or (-?\d+)', key)
-    if not m:
-        raise Untranslatable('sort key changed: ' + key)
+    guarded = 'false'
+    if m:
+        none_as = m.group(2)
+    else:
+        if not re.fullmatch(r'lambda (\w+): \1\[0\]', key):
+            raise Untranslatable('sort key changed: ' + key)
+        loop = [n for n in skeleton.own_nodes(lp) if isinstance(n, ast.For)]
+        tries = [t for t in ast.walk(loop[0]) if isinstance(t, ast.Try)] if loop else []
+        none_as = None
+        checked = appended = False
+        for st in (tries[0].body if tries else []):
+            t = ast.unparse(st)
+            mm = re.fullmatch(r'order = plugin_instance\.order\(\) or (-?\d+)', t)
+            if mm:
+                none_as = mm.group(1)
+            if isinstance(st, ast.If) and ast.unparse(st.test) == 'not isinstance(order, (int, float))' \
+                    and len(st.body) == 1 and isinstance(st.body[0], ast.Raise):
+                checked = True
+            if t == 'loaded.append((order, plugin_instance))':
+                appended = True
+        if none_as is None or not checked or not appended:
+            raise Untranslatable('load_plugins: the order is not read/checked/stored inside the per-plugin try')
+        rets = [n for n in skeleton.own_nodes(lp) if isinstance(n, ast.Return)]
+        if len(rets) != 1 or ast.unparse(rets[0].value) != '[plugin_instance for _, plugin_instance in loaded]':
+            raise Untranslatable('load_plugins returns ' + ast.unparse(rets[0].value) if rets else 'nothing')
+        guarded = 'true'
     rev = 'false'
     if 'reverse' in kw:
         if not isinstance(kw['reverse'], ast.Constant) or not isinstance(kw['reverse'].value, bool):
             raise Untranslatable('reverse= is not a literal')
         rev = 'true' if kw['reverse'].value else 'false'
-    # what is iterated: DEEP_PLUGINS + custom
     it = None
     for n in skeleton.own_nodes(lp):
         if isinstance(n, ast.For):
             it = ast.unparse(n.iter)
     if it != '__plugin_generator(DEEP_PLUGINS + custom)':
         raise Untranslatable('load_plugins iterates ' + str(it))
-    # Plugin.order default, Plugin.is_active default
     order = ctx.find(PLUG, 'Plugin.order')
     rets = [n for n in skeleton.own_nodes(order) if isinstance(n, ast.Return)]
     if len(rets) != 1 or not isinstance(rets[0].value, ast.Constant) or not isinstance(rets[0].value.value, int):
         raise Untranslatable('Plugin.order default changed')
-    return ('namespace Extracted.Plugins\n\n'
-            f'/-- `loaded.sort(key=lambda pl: pl.order() or {m.group(2)}' + (', reverse=…' if 'reverse' in kw else '')
-            + ')` -/\n'
+    # Plugin.is_active and utils.str2bool
+    ia = ctx.find(PLUG, 'Plugin.is_active')
+    if not pylean.same_shape(ia, IS_ACTIVE_TEMPLATE):
+        raise Untranslatable('Plugin.is_active changed shape')
+    sb = ctx.find(UTILS, 'str2bool')
+    rets2 = [n for n in skeleton.own_nodes(sb) if isinstance(n, ast.Return)]
+    mm = re.fullmatch(r'(str\(string\)|string)\.lower\(\) in (\(.*\))', ast.unparse(rets2[0].value)) if len(rets2) == 1 else None
+    if not mm:
+        raise Untranslatable('str2bool changed shape')
+    truthy = ast.literal_eval(mm.group(2))
+    if not all(isinstance(x, str) for x in truthy):
+        raise Untranslatable('str2bool: truthy values are not text')
+    coerces = 'true' if mm.group(1).startswith('str(') else 'false'
+    return ('namespace Extracted.Plugins\nopen Plugins\n\n'
+            f'/-- `loaded.sort(key={key}' + (', reverse=…' if 'reverse' in kw else '') + ')` -/\n'
             f'def sortReverse : Bool := {rev}\n'
-            f'def orderNoneAs : Int := ({m.group(2)} : Int)\n'
+            f'/-- `order() or {none_as}` -/\n'
+            f'def orderNoneAs : Int := ({none_as} : Int)\n'
             f'def orderDefault : Int := ({rets[0].value.value} : Int)\n'
+            '/-- order() is read, and checked to be a number, inside the per-plugin `try`: a plugin whose order cannot be\n'
+            '    used is skipped; otherwise (the sort key calls order()) such a plugin fails the whole load -/\n'
+            f'def orderGuarded : Bool := {guarded}\n'
             f'/-- the built-in plugins come first: `{it}` -/\n'
             'def builtin : List String :=\n  [' + ',\n   '.join(lean_str(x) for x in consts['DEEP_PLUGINS']) + ']\n\n'
+            '/-- `utils.str2bool`: the texts that mean "on" -/\n'
+            'def truthy : List String := [' + ', '.join(lean_str(x) for x in truthy) + ']\n'
+            f'/-- str2bool applies `str()` first, so bools and numbers given in code are read like their text form -/\n'
+            f'def str2boolCoerces : Bool := {coerces}\n\n'
+            '/-- `Plugin.is_active` on the value of `PLUGIN_<NAME>` (`none` = Python `None`: not configured, or configured\n'
+            '    as `None`): `none` as result = it raises (the loader then skips the plugin).\n'
+            "      attr = getattr(self.config, 'PLUGIN_<NAME>', 'True'); if attr is None: return True; return str2bool(attr) -/\n"
+            'def isActive (attr : Option PyVal) : Option Bool :=\n'
+            '  match attr with\n'
+            '  | none => some true\n'
+            '  | some (.text s) => some (truthy.contains (Py.lower s))\n'
+            '  | some v => if str2boolCoerces then some (truthy.contains (Py.lower (pyStr v))) else none\n\n'
             'end Extracted.Plugins\n')
 
 
@@ -229,7 +289,7 @@ def generate():
     parts = ['-- GENERATED by harness/extract/guards.py — do not edit; regenerated from /repo on every check run.\n'
              '-- guard skeletons (harness/skeleton.py), lifecycle state updates, plugin loader constants\n'
              f'-- sources: every function of src/deep with a `try` + {", ".join(sorted(set(r for _, r, _ in NAMED)))}\n'
-             'import DeepModel.Model.Guard\nimport DeepModel.Model.LifecycleBase\n',
+             'import DeepModel.Model.Guard\nimport DeepModel.Model.LifecycleBase\nimport DeepModel.Model.PluginsBase\n',
              'namespace Extracted.Guards\nopen Guard\n']
     for rel, q in (INLINE['with:trigger_context'], INLINE['with:trigger_context.action_context(action)']):
         if has_def(ctx, rel, q):
